@@ -11,6 +11,7 @@ pub mod c04;
 pub mod c05;
 pub mod c06;
 pub mod c07;
+pub mod c08;
 pub mod c09;
 pub mod c10;
 pub mod c11;
@@ -39,6 +40,7 @@ pub fn run(ctx: &Ctx) -> bool {
         "C05" => c05::run(ctx),
         "C06" => c06::run(ctx),
         "C07" => c07::run(ctx),
+        "C08" => c08::run(ctx),
         "C09" => c09::run(ctx),
         "C10" => c10::run(ctx),
         "C11" => c11::run(ctx),
@@ -64,6 +66,7 @@ pub fn replay(ctx: &Ctx, id: &str, kind: &str, case: &J) -> Vec<Fail> {
         "C05" => c05::replay(ctx, kind, case),
         "C06" => c06::replay(ctx, kind, case),
         "C07" => c07::replay(ctx, kind, case),
+        "C08" => c08::replay(ctx, kind, case),
         "C09" => c09::replay(ctx, kind, case),
         "C10" => c10::replay(ctx, kind, case),
         "C11" => c11::replay(ctx, kind, case),
